@@ -79,6 +79,7 @@ def task_find_shebang():
 
         def re_match(it, args, kwargs):
             pat, subject = args[0], args[1]
+            subjects.append(subject)
             lit, pred, desc = translate(pat)
             notes.append('pattern %r: literal %r then %s' % (pat, lit, desc))
             m = z3.String('matched_prefix')
@@ -100,7 +101,21 @@ def task_find_shebang():
             return mo
         interp.natives[re.match] = re_match
 
+        has_bom = z3.Bool('bytes_start_with_utf8_bom')
+        subjects = []
+
         class PP(Policy):
+            def str_method(self, it, recv, nm, args, kwargs):
+                # bytes source: `source_text` is the text of the bytes after an optional UTF-8 byte order mark (the BOM is not part of the program text)
+                if isinstance(recv, Opaque) and recv.name == 'source_bytes' and nm == 'startswith' and args == [b'\xef\xbb\xbf']:
+                    return has_bom
+                return PROCEED
+
+            def getitem(self, it, obj, key):
+                if isinstance(obj, Opaque) and obj.name == 'source_bytes' and isinstance(key, slice) and (key.start, key.stop, key.step) == (3, None, None):
+                    return Opaque('source_bytes_after_bom', sort='bytes')
+                return PROCEED
+
             def attr(self, it, obj, nm):
                 if isinstance(obj, Obj) and ctx.data(obj).extra.get('type') == 'match' and nm == 'group':
                     return Native(_group)
@@ -113,6 +128,14 @@ def task_find_shebang():
         r = interp.call(interp.wrap(pm._find_shebang), [src], {})
         pat_ok = bool(matches) and (matches[0] is None or isinstance(matches[0][0], bytes) == is_bytes)
         ctx.check(name + '/pattern-type-follows-the-source-type', pat_ok, kind='post', detail=repr([m[0] if m else None for m in matches]))
+        if is_bytes:
+            # the first line of the program starts after a byte order mark: the pattern must be applied to the bytes behind it
+            bom_now = ctx.solver.check(has_bom) == z3.sat and ctx.solver.check(z3.Not(has_bom)) == z3.unsat
+            nobom_now = ctx.solver.check(z3.Not(has_bom)) == z3.sat and ctx.solver.check(has_bom) == z3.unsat
+            want = 'source_bytes_after_bom' if bom_now else ('source_bytes' if nobom_now else None)
+            ok = len(subjects) == 1 and isinstance(subjects[0], Opaque) and subjects[0].name == want
+            ctx.check(name + '/bytes-are-matched-after-an-optional-byte-order-mark', ok, kind='post',
+                      detail='re.match applied to %r (byte order mark present: %s)' % (subjects, 'yes' if bom_now else ('no' if nobom_now else 'not examined')))
         if r is None:
             ctx.check(name + '/none-only-when-the-source-does-not-start-with-a-shebang', z3.Not(z3.PrefixOf(z3.StringVal('#!'), s)), kind='post')
             return
